@@ -48,6 +48,8 @@ type verifFS struct {
 	linkTarget string
 	lastExpect uint32
 	faultClose bool // Close may fail too (C05/C15); otherwise it never does
+	sched      bool   // emit be-enter/be-exit events (schedule layer)
+	curReq     string // tag of the request the running thread serves
 	walkMode   FileMode // if non-zero, the mode reported for walked nodes
 }
 
@@ -64,6 +66,10 @@ type verifNode struct {
 }
 
 func (fs *verifFS) newNode(mode FileMode) *verifNode {
+	if fs.sched {
+		// nodes created by a thread are not registered in shared state
+		return &verifNode{fs: fs, id: 1000, mode: mode}
+	}
 	n := &verifNode{fs: fs, id: len(fs.nodes) + 1, mode: mode}
 	fs.nodes = append(fs.nodes, n)
 	return n
@@ -161,12 +167,53 @@ func (fs *verifFS) anError() error {
 	}
 }
 
-func (n *verifNode) rec(c verifCall) {
+func (n *verifNode) rec(c verifCall) func() {
 	c.node = n.id
-	if n.closed > 0 && c.op != "Close" {
-		n.uac = true
+	if !n.fs.sched {
+		if n.closed > 0 && c.op != "Close" {
+			n.uac = true
+		}
+		n.fs.log = append(n.fs.log, c)
+		return verifNop
 	}
-	n.fs.log = append(n.fs.log, c)
+	// (schedule mode keeps no shared mutable bookkeeping in the backend)
+	// schedule mode: backend calls are events (enter/exit) for the overlap queries
+	class := verifClassOf(c.op)
+	entry := ""
+	if c.op == "UnlinkAt" && len(c.s) > 0 {
+		entry = n.pathKey() + "/" + c.s[0]
+	}
+	op, pk, id, req := c.op, n.pathKey(), n.id, verifThreadName()
+	verifEvent("be-enter", op, class, pk, entry, id, req)
+	return func() { verifEvent("be-exit", op, class, pk, entry, id, req) }
+}
+
+func verifNop() {}
+
+// verifClassOf: concurrency class of each File method (comments of p9/file.go,
+// restated in DESIGN.md Appendix B).
+func verifClassOf(op string) string {
+	switch op {
+	case "Walk", "WalkGetAttr", "GetAttr", "Open", "ReadAt", "WriteAt", "FSync", "Readdir", "Readlink":
+		return "read"
+	case "SetAttr", "Create", "Mkdir", "Symlink", "Link", "Mknod", "UnlinkAt":
+		return "write"
+	case "RenameAt", "Renamed":
+		return "global"
+	}
+	return "none"
+}
+
+// pathKey: the path the node currently denotes (clones share it).
+func (n *verifNode) pathKey() string {
+	if n.parent == 0 {
+		return ""
+	}
+	p := n.fs.node(n.parent)
+	if p == nil {
+		return "?/" + n.name
+	}
+	return p.pathKey() + "/" + n.name
 }
 
 func verifQID() QID {
@@ -187,7 +234,7 @@ func (n *verifNode) id2(f File) int {
 }
 
 func (n *verifNode) Walk(names []string) ([]QID, File, error) {
-	n.rec(verifCall{op: "Walk", s: append([]string(nil), names...), npath: len(names)})
+	defer n.rec(verifCall{op: "Walk", s: append([]string(nil), names...), npath: len(names)})()
 	if err := n.fs.fault(); err != nil {
 		return nil, nil, err
 	}
@@ -215,7 +262,7 @@ func (n *verifNode) WalkGetAttr(names []string) ([]QID, File, AttrMask, Attr, er
 	if !n.useWGA {
 		return nil, nil, AttrMask{}, Attr{}, linux.ENOSYS
 	}
-	n.rec(verifCall{op: "WalkGetAttr", s: append([]string(nil), names...), npath: len(names)})
+	defer n.rec(verifCall{op: "WalkGetAttr", s: append([]string(nil), names...), npath: len(names)})()
 	if err := n.fs.fault(); err != nil {
 		return nil, nil, AttrMask{}, Attr{}, err
 	}
@@ -243,18 +290,20 @@ func (n *verifNode) walkNoRec(names []string) ([]QID, File, error) {
 }
 
 func (n *verifNode) StatFS() (FSStat, error) {
-	n.rec(verifCall{op: "StatFS"})
+	defer n.rec(verifCall{op: "StatFS"})()
 	if err := n.fs.fault(); err != nil {
 		return FSStat{}, err
 	}
 	var st FSStat
 	verifHavoc(&st, 0, 0, 0)
-	n.fs.lastStat = st
+	if !n.fs.sched {
+		n.fs.lastStat = st
+	}
 	return st, nil
 }
 
 func (n *verifNode) GetAttr(req AttrMask) (QID, AttrMask, Attr, error) {
-	n.rec(verifCall{op: "GetAttr", u: []uint64{verifMaskBits(req)}})
+	defer n.rec(verifCall{op: "GetAttr", u: []uint64{verifMaskBits(req)}})()
 	if err := n.fs.fault(); err != nil {
 		return QID{}, AttrMask{}, Attr{}, err
 	}
@@ -264,7 +313,9 @@ func (n *verifNode) GetAttr(req AttrMask) (QID, AttrMask, Attr, error) {
 	var valid AttrMask
 	verifHavoc(&valid, 0, 0, 0)
 	valid.Mode = true
-	n.fs.lastQID, n.fs.lastAttr, n.fs.lastValid = q, a, valid
+	if !n.fs.sched {
+		n.fs.lastQID, n.fs.lastAttr, n.fs.lastValid = q, a, valid
+	}
 	return q, valid, a, nil
 }
 
@@ -281,13 +332,16 @@ func verifSetMaskBits(a SetAttrMask) uint64 {
 }
 
 func (n *verifNode) SetAttr(valid SetAttrMask, attr SetAttr) error {
-	n.rec(verifCall{op: "SetAttr", u: []uint64{verifSetMaskBits(valid), uint64(attr.Permissions), uint64(attr.UID), uint64(attr.GID), attr.Size,
-		attr.ATimeSeconds, attr.ATimeNanoSeconds, attr.MTimeSeconds, attr.MTimeNanoSeconds}})
+	defer n.rec(verifCall{op: "SetAttr", u: []uint64{verifSetMaskBits(valid), uint64(attr.Permissions), uint64(attr.UID), uint64(attr.GID), attr.Size,
+		attr.ATimeSeconds, attr.ATimeNanoSeconds, attr.MTimeSeconds, attr.MTimeNanoSeconds}})()
 	return n.fs.fault()
 }
 
 func (n *verifNode) Close() error {
-	n.rec(verifCall{op: "Close"})
+	defer n.rec(verifCall{op: "Close"})()
+	if n.fs.sched {
+		return nil
+	}
 	n.closed++
 	if !n.fs.faultClose {
 		return nil
@@ -296,18 +350,22 @@ func (n *verifNode) Close() error {
 }
 
 func (n *verifNode) Open(mode OpenFlags) (QID, uint32, error) {
-	n.rec(verifCall{op: "Open", u: []uint64{uint64(mode)}})
-	n.opens++
+	defer n.rec(verifCall{op: "Open", u: []uint64{uint64(mode)}})()
+	if !n.fs.sched {
+		n.opens++
+	}
 	if err := n.fs.fault(); err != nil {
 		return QID{}, 0, err
 	}
 	q, io := verifQID(), verifNondetU32()
-	n.fs.lastQID, n.fs.lastU32 = q, io
+	if !n.fs.sched {
+		n.fs.lastQID, n.fs.lastU32 = q, io
+	}
 	return q, io, nil
 }
 
 func (n *verifNode) ReadAt(p []byte, offset int64) (int, error) {
-	n.rec(verifCall{op: "ReadAt", u: []uint64{uint64(len(p)), uint64(offset)}})
+	defer n.rec(verifCall{op: "ReadAt", u: []uint64{uint64(len(p)), uint64(offset)}})()
 	if err := n.fs.fault(); err != nil {
 		return 0, err
 	}
@@ -320,23 +378,25 @@ func (n *verifNode) ReadAt(p []byte, offset int64) (int, error) {
 }
 
 func (n *verifNode) WriteAt(p []byte, offset int64) (int, error) {
-	n.rec(verifCall{op: "WriteAt", u: []uint64{uint64(len(p)), uint64(offset)}, b: append([]byte(nil), p...)})
+	defer n.rec(verifCall{op: "WriteAt", u: []uint64{uint64(len(p)), uint64(offset)}, b: append([]byte(nil), p...)})()
 	if err := n.fs.fault(); err != nil {
 		return 0, err
 	}
 	r := int(verifNondetU32())
 	verifAssume(r >= 0 && r <= len(p))
-	n.fs.lastInt = r
+	if !n.fs.sched {
+		n.fs.lastInt = r
+	}
 	return r, nil
 }
 
 func (n *verifNode) SetXattr(attr string, data []byte, flags XattrFlags) error {
-	n.rec(verifCall{op: "SetXattr", s: []string{attr}, u: []uint64{uint64(flags)}, b: append([]byte(nil), data...)})
+	defer n.rec(verifCall{op: "SetXattr", s: []string{attr}, u: []uint64{uint64(flags)}, b: append([]byte(nil), data...)})()
 	return n.fs.fault()
 }
 
 func (n *verifNode) GetXattr(attr string) ([]byte, error) {
-	n.rec(verifCall{op: "GetXattr", s: []string{attr}})
+	defer n.rec(verifCall{op: "GetXattr", s: []string{attr}})()
 	if err := n.fs.fault(); err != nil {
 		return nil, err
 	}
@@ -344,7 +404,7 @@ func (n *verifNode) GetXattr(attr string) ([]byte, error) {
 }
 
 func (n *verifNode) ListXattrs() ([]string, error) {
-	n.rec(verifCall{op: "ListXattrs"})
+	defer n.rec(verifCall{op: "ListXattrs"})()
 	if err := n.fs.fault(); err != nil {
 		return nil, err
 	}
@@ -352,79 +412,89 @@ func (n *verifNode) ListXattrs() ([]string, error) {
 }
 
 func (n *verifNode) RemoveXattr(attr string) error {
-	n.rec(verifCall{op: "RemoveXattr", s: []string{attr}})
+	defer n.rec(verifCall{op: "RemoveXattr", s: []string{attr}})()
 	return n.fs.fault()
 }
 
 func (n *verifNode) FSync() error {
-	n.rec(verifCall{op: "FSync"})
+	defer n.rec(verifCall{op: "FSync"})()
 	return n.fs.fault()
 }
 
 func (n *verifNode) Lock(pid int, locktype LockType, flags LockFlags, start, length uint64, client string) (LockStatus, error) {
-	n.rec(verifCall{op: "Lock", s: []string{client}, u: []uint64{uint64(pid), uint64(locktype), uint64(flags), start, length}})
+	defer n.rec(verifCall{op: "Lock", s: []string{client}, u: []uint64{uint64(pid), uint64(locktype), uint64(flags), start, length}})()
 	if err := n.fs.fault(); err != nil {
 		return LockStatusError, err
 	}
 	st := LockStatus(verifNondetU8())
-	n.fs.lastU32 = uint32(st)
+	if !n.fs.sched {
+		n.fs.lastU32 = uint32(st)
+	}
 	return st, nil
 }
 
 func (n *verifNode) Create(name string, flags OpenFlags, permissions FileMode, uid UID, gid GID) (File, QID, uint32, error) {
-	n.rec(verifCall{op: "Create", s: []string{name}, npath: 1, u: []uint64{uint64(flags), uint64(permissions), uint64(uid), uint64(gid)}})
+	defer n.rec(verifCall{op: "Create", s: []string{name}, npath: 1, u: []uint64{uint64(flags), uint64(permissions), uint64(uid), uint64(gid)}})()
 	if err := n.fs.fault(); err != nil {
 		return nil, QID{}, 0, err
 	}
 	c := n.fs.newNode(ModeRegular | 0644)
 	c.parent, c.name = n.id, name
 	q, io := verifQID(), verifNondetU32()
-	n.fs.lastQID, n.fs.lastU32 = q, io
+	if !n.fs.sched {
+		n.fs.lastQID, n.fs.lastU32 = q, io
+	}
 	return c, q, io, nil
 }
 
 func (n *verifNode) Mkdir(name string, permissions FileMode, uid UID, gid GID) (QID, error) {
-	n.rec(verifCall{op: "Mkdir", s: []string{name}, npath: 1, u: []uint64{uint64(permissions), uint64(uid), uint64(gid)}})
+	defer n.rec(verifCall{op: "Mkdir", s: []string{name}, npath: 1, u: []uint64{uint64(permissions), uint64(uid), uint64(gid)}})()
 	if err := n.fs.fault(); err != nil {
 		return QID{}, err
 	}
 	q := verifQID()
-	n.fs.lastQID = q
+	if !n.fs.sched {
+		n.fs.lastQID = q
+	}
 	return q, nil
 }
 
 func (n *verifNode) Symlink(oldName string, newName string, uid UID, gid GID) (QID, error) {
-	n.rec(verifCall{op: "Symlink", s: []string{newName, oldName}, npath: 1, u: []uint64{uint64(uid), uint64(gid)}})
+	defer n.rec(verifCall{op: "Symlink", s: []string{newName, oldName}, npath: 1, u: []uint64{uint64(uid), uint64(gid)}})()
 	if err := n.fs.fault(); err != nil {
 		return QID{}, err
 	}
 	q := verifQID()
-	n.fs.lastQID = q
+	if !n.fs.sched {
+		n.fs.lastQID = q
+	}
 	return q, nil
 }
 
 func (n *verifNode) Link(target File, newName string) error {
-	n.rec(verifCall{op: "Link", s: []string{newName}, npath: 1, other: n.id2(target)})
+	defer n.rec(verifCall{op: "Link", s: []string{newName}, npath: 1, other: n.id2(target)})()
 	return n.fs.fault()
 }
 
 func (n *verifNode) Mknod(name string, mode FileMode, major uint32, minor uint32, uid UID, gid GID) (QID, error) {
-	n.rec(verifCall{op: "Mknod", s: []string{name}, npath: 1, u: []uint64{uint64(mode), uint64(major), uint64(minor), uint64(uid), uint64(gid)}})
+	defer n.rec(verifCall{op: "Mknod", s: []string{name}, npath: 1, u: []uint64{uint64(mode), uint64(major), uint64(minor), uint64(uid), uint64(gid)}})()
 	if err := n.fs.fault(); err != nil {
 		return QID{}, err
 	}
 	q := verifQID()
-	n.fs.lastQID = q
+	if !n.fs.sched {
+		n.fs.lastQID = q
+	}
 	return q, nil
 }
 
 func (n *verifNode) Rename(newDir File, newName string) error {
-	n.rec(verifCall{op: "Rename", s: []string{newName}, npath: 1, other: n.id2(newDir)})
+	defer n.rec(verifCall{op: "Rename", s: []string{newName}, npath: 1, other: n.id2(newDir)})()
 	return n.fs.fault()
 }
 
 func (n *verifNode) RenameAt(oldName string, newDir File, newName string) error {
-	n.rec(verifCall{op: "RenameAt", s: []string{oldName, newName}, npath: 2, other: n.id2(newDir)})
+	defer n.rec(verifCall{op: "RenameAt", s: []string{oldName, newName}, npath: 2, other: n.id2(newDir)})()
 	// like every real file system, refuse to move a directory into itself
 	// or into its own subtree (rename(2): EINVAL)
 	if d, ok := newDir.(*verifNode); ok {
@@ -449,12 +519,12 @@ func (n *verifNode) samePath(o *verifNode) bool {
 }
 
 func (n *verifNode) UnlinkAt(name string, flags uint32) error {
-	n.rec(verifCall{op: "UnlinkAt", s: []string{name}, npath: 1, u: []uint64{uint64(flags)}})
+	defer n.rec(verifCall{op: "UnlinkAt", s: []string{name}, npath: 1, u: []uint64{uint64(flags)}})()
 	return n.fs.fault()
 }
 
 func (n *verifNode) Readdir(offset uint64, count uint32) (Dirents, error) {
-	n.rec(verifCall{op: "Readdir", u: []uint64{offset, uint64(count)}})
+	defer n.rec(verifCall{op: "Readdir", u: []uint64{offset, uint64(count)}})()
 	if err := n.fs.fault(); err != nil {
 		return nil, err
 	}
@@ -462,7 +532,7 @@ func (n *verifNode) Readdir(offset uint64, count uint32) (Dirents, error) {
 }
 
 func (n *verifNode) Readlink() (string, error) {
-	n.rec(verifCall{op: "Readlink"})
+	defer n.rec(verifCall{op: "Readlink"})()
 	if err := n.fs.fault(); err != nil {
 		return "", err
 	}
@@ -470,7 +540,7 @@ func (n *verifNode) Readlink() (string, error) {
 }
 
 func (n *verifNode) Renamed(newDir File, newName string) {
-	n.rec(verifCall{op: "Renamed", s: []string{newName}, npath: 1, other: n.id2(newDir)})
+	defer n.rec(verifCall{op: "Renamed", s: []string{newName}, npath: 1, other: n.id2(newDir)})()
 	if o, ok := newDir.(*verifNode); ok {
 		n.parent, n.name = o.id, newName
 	}
